@@ -220,8 +220,8 @@ def _bucket(case):
 
 SUBCHECKS = [
     Sub("rotation", check_rotation, strategy=lambda tier: rotation_case(),
-        quick=8000, thorough=200000),
+        quick=12000, thorough=600000),
     Sub("frame", check_frame, strategy=lambda tier: frame_case(),
-        quick=12000, thorough=300000,
+        quick=16000, thorough=900000,
         min_share={"frame:diagonal": 0.03, "frame:axis-z": 0.03, "frame:rotated-collinear": 0.03}),
 ]
